@@ -1806,6 +1806,30 @@ func c17Budgets(c *ctx, bin string) {
 		}
 		triples = append(triples, [3]int64{v(), v(), v()})
 	}
+	// gametime/5 + inc within 2 ms below MaxInt64 without overflowing (and just above: the sum wraps): a clamp written as
+	// `budget+1ms > gametime` wraps there and leaves a budget of 292 years on a clock of milliseconds.  Whole-millisecond values
+	// that fit on a go line first (`go wtime 3 winc 9223372036854`), then the raw neighbourhoods.
+	const maxI64 = int64(^uint64(0) >> 1)
+	for _, t := range [][3]int64{{0, 3e6, 9223372036854e6}, {0, 8e6, 9223372036853e6}, {1e6, 3e6, 9223372036854e6}, {5e9, 3e6, 9223372036854e6},
+		{0, 1e6, 9223372036854e6}, {0, 4e6, 9223372036854e6}, {0, 3e6, 9223372036853e6}} {
+		triples = append(triples, t)
+	}
+	for k := 0; k < 600*c.scale; k++ {
+		gt := []int64{1, 999999, 1e6, 1000001, 2e6, 3e6, 8e6, 1e9, 6e10, 36e11}[r.Intn(10)]
+		if r.Intn(3) == 0 {
+			gt = 1 + r.Int63n(1<<uint(1+r.Intn(50)))
+		}
+		delta := []int64{0, 1, 2, 175807, 999998, 999999, 1000000, 1000001, 1999999, 2000000, -1, -2, -999999, -1000000}[r.Intn(14)]
+		if r.Intn(3) == 0 {
+			delta = r.Int63n(2000001)
+		}
+		inc := maxI64 - gt/5 - delta // delta < 0: the sum overflows (wraps negative)
+		if delta < 0 && gt/5 < -delta {
+			inc = maxI64
+		}
+		mt := []int64{0, 0, 1, 1e6, 5e9, maxI64}[r.Intn(6)]
+		triples = append(triples, [3]int64{mt, gt, inc})
+	}
 	// arbitrary int64 (outside the property's domain; model comparison only)
 	for k := 0; k < 10000*c.scale; k++ {
 		triples = append(triples, [3]int64{int64(r.Uint64()), int64(r.Uint64()), int64(r.Uint64())})
@@ -2582,6 +2606,21 @@ func c17Desync(s *c17Sess) bool {
 	return false
 }
 
+// c17LongGame: a legal game of n plies in one `position startpos moves ...` line - after the two opening placements the two
+// stones walk up and down their files for ever (no rule of the game ends that).  The line is longer than any fixed read buffer
+// (4096 = bufio's default, 8192): an engine that reads its commands with a bounded buffer loses the command.
+func c17LongGame(size, plies int) string {
+	far := string([]byte{byte('a' + size - 1)})
+	top := strconv.Itoa(size)
+	below := strconv.Itoa(size - 1)
+	w := []string{"position", "startpos", "moves", "a1", far + top}
+	cyc := []string{far + top + "-", "a1+", far + below + "+", "a2-"}
+	for i := 0; len(w)-3 < plies; i++ {
+		w = append(w, cyc[i%4])
+	}
+	return strings.Join(w, " ")
+}
+
 func c17Fixed() []*c17Script {
 	mk := func(mode string, depth int, text string) *c17Script {
 		return &c17Script{mode: mode, depth: depth, evk: 2, tbl: 64, family: "fixed", text: []byte(text), rec: mode == "L"}
@@ -2604,6 +2643,18 @@ func c17Fixed() []*c17Script {
 			mk(mode, 1, "teinewgame 5\nposition tps x5/x5/x2,1,x2/x5/x,2,x3 1 2 moves a1 e5\ngo\nteinewgame 5\nposition startpos moves a1 e5\ngo\n"),
 			mk(mode, 1, "teinewgame 5\nposition startpos moves a1 e5\ngo\nposition tps x5/x5/x2,1,x2/x5/x,2,x3 1 2 moves a1 e5 a2\ngo\nposition tps x5/x,1,x3/x5/x5/x3,2,x 1 2 moves a1 e5 a2\ngo\n"),
 		)
+	}
+	// one very long command line (>= 4096, >= 8192 bytes, and the two boundaries of a 4096-byte buffer), then go
+	for _, mode := range []string{"L", "R"} {
+		for _, v := range [][3]int{{3, 1100, 0}, {5, 2300, 0}, {4, 1000, 4095}, {4, 1000, 4096}, {4, 1000, 4097}} {
+			line := c17LongGame(v[0], v[1])
+			for len(line)+1 < v[2] { // padded with spaces to an exact length, newline included
+				line += " "
+			}
+			sc := mk(mode, 1, fmt.Sprintf("teinewgame %d\n%s\ngo\nisready\n", v[0], line))
+			sc.family = "long-line"
+			out = append(out, sc)
+		}
 	}
 	return out
 }
